@@ -39,7 +39,8 @@ class LiveDispatcher(CallbackBase):
         # Public dispatcher for callbacks
         self.dispatcher = Dispatcher()
         # Local caches for internal use
-        self.seq_count = 0  # Maintain our own sequence count for this stream
+        self.seq_count = 0  # Total number of events emitted for this run
+        self._seq_counts = dict()  # Number of events emitted in each stream  # noqa: C408
         self.raw_descriptors = dict()  # Store raw descriptors for use later  # noqa: C408
         self._stream_start_uid = None  # Generated start doc uid
         self._descriptors = dict()  # Dictionary of sent descriptors  # noqa: C408
@@ -164,6 +165,7 @@ class LiveDispatcher(CallbackBase):
         # untouched, but the relevant uids, timestamps, seq_num are modified so
         # that this event is not confused with the raw data stream
         self.seq_count += 1
+        self._seq_counts[stream_name] = self._seq_counts.get(stream_name, 0) + 1
         desc_uid = self._descriptors[stream_name][desc_id]["uid"]
         current_time = ttime.time()
         evt = ChainMap(
@@ -171,7 +173,7 @@ class LiveDispatcher(CallbackBase):
                 "uid": new_uid(),
                 "descriptor": desc_uid,
                 "timestamps": dict((key, current_time) for key in doc["data"].keys()),  # noqa: C402
-                "seq_num": self.seq_count,
+                "seq_num": self._seq_counts[stream_name],
                 "time": current_time,
             },
             doc,
@@ -185,7 +187,7 @@ class LiveDispatcher(CallbackBase):
         # start document uid, and tally the number of events we have emitted.
         # The rest of the stop information is passed on to the next callback
         _md = _md or dict()  # noqa: C408
-        num_events = dict((stream, len(self._descriptors[stream])) for stream in self._descriptors.keys())  # noqa: C402
+        num_events = dict(self._seq_counts)
         md = ChainMap(
             dict(run_start=self._stream_start_uid, time=ttime.time(), uid=new_uid(), num_events=num_events),  # noqa: C408
             doc,  # noqa: C408
@@ -193,6 +195,7 @@ class LiveDispatcher(CallbackBase):
         self.emit(DocumentNames.stop, dict(md))
         # Clear the local caches for the run
         self.seq_count = 0
+        self._seq_counts.clear()
         self.raw_descriptors.clear()
         self._descriptors.clear()
         self._stream_start_uid = None
